@@ -11,6 +11,7 @@
 #define VERIF_ASSUMED_ELEMENTS_H
 #include "assumed.h"
 
+static inline int el_nonzero32(const unsigned char *b) { int nz = 0, j; for (j = 0; j < 32; j++) nz |= b[j]; return nz != 0; }
 #define GEJ_EQ(g, h) (FE_EQ((g).x, (h).x) && FE_EQ((g).y, (h).y) && FE_EQ((g).z, (h).z) && (g).infinity == (h).infinity)
 #define GE_EQ(g, h) (FE_EQ((g).x, (h).x) && FE_EQ((g).y, (h).y) && (g).infinity == (h).infinity)
 #define GEJ_KEEP(g) (FE_KEEP((g).x) && FE_KEEP((g).y) && FE_KEEP((g).z) && (g).infinity == __CPROVER_old((g).infinity))
@@ -48,17 +49,18 @@ static inline size_t el_popcount(const unsigned char *data, size_t count) {
     for (i = 0; i < 32; i++) if (i < count) for (b = 0; b < 8; b++) r += (data[i] >> b) & 1;
     return r;
 }
-/* optional call log (EL_LOG_COUNT_BITS): number of calls, count and result of the last call, and whether
- * its data pointer was the one the harness expects (g_cb_expect is never assigned by code or contract;
- * pointer-typed ghost variables in ensures clauses make DFCC paths infeasible, so a flag is logged) */
+/* optional call log (EL_LOG_COUNT_BITS) of the last call: count, result, and the data byte at the ghost
+ * position g_cb_k (fixed by the harness, never assigned): "the bytes counted are THESE bytes" is then a
+ * statement about content, not about which copy of them the code chose to count */
 #ifdef EL_LOG_COUNT_BITS
-int g_cb_n, g_cb_match; const unsigned char *g_cb_expect; size_t g_cb_count, g_cb_ret;
+int g_cb_n; size_t g_cb_k; unsigned char g_cb_byte; size_t g_cb_count, g_cb_ret;
 #endif
 static size_t secp256k1_count_bits_set(const unsigned char *data, size_t count)
 __CPROVER_requires(count <= 32 && (count == 0 || __CPROVER_r_ok(data, count)))
 #ifdef EL_LOG_COUNT_BITS
-__CPROVER_assigns(g_cb_n, g_cb_match, g_cb_count, g_cb_ret)
-__CPROVER_ensures(g_cb_n == __CPROVER_old(g_cb_n) + 1 && g_cb_match == (data == g_cb_expect) && g_cb_count == count && g_cb_ret == __CPROVER_return_value)
+__CPROVER_assigns(g_cb_n, g_cb_byte, g_cb_count, g_cb_ret)
+__CPROVER_ensures(g_cb_n == __CPROVER_old(g_cb_n) + 1 && g_cb_count == count && g_cb_ret == __CPROVER_return_value)
+__CPROVER_ensures(g_cb_k < count ==> g_cb_byte == data[g_cb_k])
 #else
 __CPROVER_assigns()
 #endif
@@ -68,9 +70,9 @@ __CPROVER_ensures(__CPROVER_return_value <= 8 * count)
 #endif
 
 /* Ghost indices shared by the ring contracts below; the harness fixes them, nothing else assigns them:
- * g_el_i = a ring position, g_el_k = a byte position in a 32-byte message. */
+ * g_el_i = a ring position, g_el_k = a byte position in a 32-byte string (message, e0, bitmap). */
 #if defined(EL_BORROMEAN_VERIFY) || defined(EL_BORROMEAN_SIGN) || defined(EL_WL_KEYS_MSG) || defined(EL_SJ_PUBKEYS) || defined(EL_SJ_GENRAND) || defined(EL_SJ_GENMSG)
-size_t g_el_i, g_el_k;
+size_t g_el_i, g_el_k, g_el_b;     /* g_el_b = a byte position in a 64-byte object (tag / public key) */
 #endif
 
 /* --------------------------------- secp256k1_borromean_verify, single ring, evalues == NULL (ORACLE) */
@@ -80,25 +82,24 @@ size_t g_el_i, g_el_k;
  * g_el_i, i.e. for every position; the keys come from an oracle that yields representation-range
  * elements) and logs what it was given
  * and what it answered.  Its own gates (s = 0, infinity, hash order) belong to C10.borromean_verify. */
-int g_bv_n, g_bv_ret, g_bv_e0_match, g_bv_evalues_null; size_t g_bv_nrings, g_bv_rsize0, g_bv_mlen;
-const unsigned char *g_bv_e0_expect;     /* set by the harness only */
-secp256k1_scalar g_bv_s_i; unsigned char g_bv_m_k;
-/* the key array is identified by (object, offset) of its pointer plus one limb of entry g_el_i: reading a
- * whole 128-byte group element at a symbolic index of a 32 KiB array costs 20 M clauses per read */
-size_t g_bv_pub_obj, g_bv_pub_off; uint64_t g_bv_pub_x0;
+int g_bv_n, g_bv_ret, g_bv_evalues_null; size_t g_bv_nrings, g_bv_rsize0, g_bv_mlen;
+secp256k1_scalar g_bv_s_i; unsigned char g_bv_m_k, g_bv_e0_k;
+/* of key g_el_i one limb is logged: reading a whole 128-byte group element at a symbolic index of a
+ * 32 KiB array costs 20 M clauses per read */
+uint64_t g_bv_pub_x0;
 static int secp256k1_borromean_verify(const secp256k1_hash_ctx *hash_ctx, secp256k1_scalar *evalues, const unsigned char *e0, const secp256k1_scalar *s,
  const secp256k1_gej *pubs, const size_t *rsizes, size_t nrings, const unsigned char *m, size_t mlen)
 __CPROVER_requires(hash_ctx != NULL && evalues == NULL && nrings == 1 && __CPROVER_r_ok(rsizes, sizeof(size_t)) && rsizes[0] <= 256)
 __CPROVER_requires(__CPROVER_r_ok(e0, 32) && __CPROVER_r_ok(m, mlen) && mlen == 32)
 __CPROVER_requires(__CPROVER_r_ok(s, rsizes[0] * sizeof(secp256k1_scalar)) && __CPROVER_r_ok(pubs, rsizes[0] * sizeof(secp256k1_gej)))
 __CPROVER_requires(g_el_i < rsizes[0] ==> scalar_ok(&s[g_el_i]))
-__CPROVER_assigns(g_bv_n, g_bv_ret, g_bv_e0_match, g_bv_evalues_null, g_bv_nrings, g_bv_rsize0, g_bv_mlen, g_bv_s_i, g_bv_pub_obj, g_bv_pub_off, g_bv_pub_x0, g_bv_m_k)
+__CPROVER_assigns(g_bv_n, g_bv_ret, g_bv_evalues_null, g_bv_nrings, g_bv_rsize0, g_bv_mlen, g_bv_s_i, g_bv_pub_x0, g_bv_m_k, g_bv_e0_k)
 __CPROVER_ensures(__CPROVER_return_value == 0 || __CPROVER_return_value == 1)
-__CPROVER_ensures(g_bv_n == __CPROVER_old(g_bv_n) + 1 && g_bv_ret == __CPROVER_return_value && g_bv_e0_match == (e0 == g_bv_e0_expect) &&
+__CPROVER_ensures(g_bv_n == __CPROVER_old(g_bv_n) + 1 && g_bv_ret == __CPROVER_return_value &&
                   g_bv_evalues_null == (evalues == NULL) && g_bv_nrings == nrings && g_bv_rsize0 == rsizes[0] && g_bv_mlen == mlen)
 __CPROVER_ensures(g_el_i < rsizes[0] ==> (SC_EQ(g_bv_s_i, s[g_el_i]) && g_bv_pub_x0 == pubs[g_el_i].x.n[0]))
-__CPROVER_ensures(g_bv_pub_obj == __CPROVER_POINTER_OBJECT(pubs) && g_bv_pub_off == __CPROVER_POINTER_OFFSET(pubs))
 __CPROVER_ensures(g_el_k < mlen ==> g_bv_m_k == m[g_el_k])
+__CPROVER_ensures(g_el_k < 32 ==> g_bv_e0_k == e0[g_el_k])
 ;
 #endif
 
@@ -106,19 +107,22 @@ __CPROVER_ensures(g_el_k < mlen ==> g_bv_m_k == m[g_el_k])
 #ifdef EL_WL_KEYS_MSG
 /* Ring keys are oracle values in representation range (their algebra is residue); the message is
  * what unit C16.keys_msg proves about the hash stream.  The real function always returns 1; the
- * contract lets it fail so that the caller's handling of a failure is an obligation. */
-int g_ck_n, g_ck_ret, g_ck_nkeys, g_ck_args_match;
-const secp256k1_pubkey *g_ck_online_expect, *g_ck_offline_expect, *g_ck_sub_expect;   /* harness only */
-size_t g_ck_keys_obj, g_ck_keys_off; uint64_t g_ck_key_x0; unsigned char g_ck_msg_k;
+ * contract lets it fail so that the caller's handling of a failure is an obligation.  The real function
+ * reports illegal use for a key object with x = 0 (secp256k1_pubkey_load); that effect is outside this
+ * contract: callers' "no callback" obligations are stated "outside key loading", and C16.keys_msg_b2
+ * shows there is none for valid key objects. */
+int g_ck_n, g_ck_ret, g_ck_nkeys, g_ck_lists_match;
+const secp256k1_pubkey *g_ck_online_expect, *g_ck_offline_expect;   /* harness only; the lists have symbolic length, so they are identified by address */
+uint64_t g_ck_key_x0; unsigned char g_ck_msg_k, g_ck_sub_b;
 static int secp256k1_whitelist_compute_keys_and_message(const secp256k1_context* ctx, unsigned char *msg32, secp256k1_gej *keys, const secp256k1_pubkey *online_pubkeys, const secp256k1_pubkey *offline_pubkeys, const int n_keys, const secp256k1_pubkey *sub_pubkey)
 __CPROVER_requires(ctx != NULL && n_keys >= 0 && n_keys <= 255 && __CPROVER_w_ok(msg32, 32) && __CPROVER_w_ok(keys, n_keys * sizeof(secp256k1_gej)))
 __CPROVER_requires(__CPROVER_r_ok(online_pubkeys, n_keys * sizeof(secp256k1_pubkey)) && __CPROVER_r_ok(offline_pubkeys, n_keys * sizeof(secp256k1_pubkey)) && __CPROVER_r_ok(sub_pubkey, sizeof(secp256k1_pubkey)))
-__CPROVER_assigns(__CPROVER_object_upto(msg32, 32), __CPROVER_object_whole(keys), g_ck_n, g_ck_ret, g_ck_nkeys, g_ck_args_match, g_ck_keys_obj, g_ck_keys_off, g_ck_key_x0, g_ck_msg_k)
+__CPROVER_assigns(__CPROVER_object_upto(msg32, 32), __CPROVER_object_whole(keys), g_ck_n, g_ck_ret, g_ck_nkeys, g_ck_lists_match, g_ck_key_x0, g_ck_msg_k, g_ck_sub_b)
 __CPROVER_ensures(__CPROVER_return_value == 0 || __CPROVER_return_value == 1)
 __CPROVER_ensures(g_ck_n == __CPROVER_old(g_ck_n) + 1 && g_ck_ret == __CPROVER_return_value && g_ck_nkeys == n_keys &&
-                  g_ck_args_match == (online_pubkeys == g_ck_online_expect && offline_pubkeys == g_ck_offline_expect && sub_pubkey == g_ck_sub_expect))
+                  g_ck_lists_match == (online_pubkeys == g_ck_online_expect && offline_pubkeys == g_ck_offline_expect))
+__CPROVER_ensures(g_el_b < 64 ==> g_ck_sub_b == sub_pubkey->data[g_el_b])
 __CPROVER_ensures(g_el_i < (size_t)n_keys ==> g_ck_key_x0 == keys[g_el_i].x.n[0])
-__CPROVER_ensures(g_ck_keys_obj == __CPROVER_POINTER_OBJECT(keys) && g_ck_keys_off == __CPROVER_POINTER_OFFSET(keys))
 __CPROVER_ensures(g_el_k < 32 ==> g_ck_msg_k == msg32[g_el_k])
 ;
 #endif
@@ -128,9 +132,9 @@ __CPROVER_ensures(g_el_k < 32 ==> g_ck_msg_k == msg32[g_el_k])
 /* Ring keys (output tag minus selected input tag) are oracle values; what the callers rely on is the
  * frame, the count/padding precondition and the ring position of the real input.  The real function
  * always returns 1; the contract lets it fail so that the callers' handling of 0 is an obligation. */
-int g_pk_n, g_pk_ret, g_pk_args_match, g_pk_ring_null; size_t g_pk_npub, g_pk_ntags, g_pk_input_index, g_pk_ring;
-const secp256k1_generator *g_pk_tags_expect, *g_pk_out_expect; const unsigned char *g_pk_used_expect;    /* harness only */
-size_t g_pk_keys_obj, g_pk_keys_off; uint64_t g_pk_key_x0;
+int g_pk_n, g_pk_ret, g_pk_tags_match, g_pk_ring_null; size_t g_pk_npub, g_pk_ntags, g_pk_input_index, g_pk_ring;
+const secp256k1_generator *g_pk_tags_expect;    /* harness only; symbolic-length list identified by address */
+uint64_t g_pk_key_x0; unsigned char g_pk_out_b, g_pk_used_k;
 static int secp256k1_surjection_compute_public_keys(secp256k1_gej *pubkeys, size_t n_pubkeys, const secp256k1_generator *input_tags, size_t n_input_tags, const unsigned char *used_tags, const secp256k1_generator *output_tag, size_t input_index, size_t *ring_input_index)
 __CPROVER_requires(n_pubkeys <= 256 && n_input_tags <= 256 && n_pubkeys <= n_input_tags && __CPROVER_w_ok(pubkeys, n_pubkeys * sizeof(secp256k1_gej)))
 __CPROVER_requires(__CPROVER_r_ok(input_tags, n_input_tags * sizeof(secp256k1_generator)) && __CPROVER_r_ok(used_tags, (n_input_tags + 7) / 8) && __CPROVER_r_ok(output_tag, sizeof(secp256k1_generator)))
@@ -142,26 +146,28 @@ __CPROVER_requires(n_input_tags % 8 == 0 || (used_tags[(n_input_tags + 7) / 8 - 
 __CPROVER_requires(n_pubkeys == g_cb_ret && g_cb_count == (n_input_tags + 7) / 8)
 #endif
 __CPROVER_assigns(__CPROVER_object_whole(pubkeys); ring_input_index != NULL: *ring_input_index;
-                  g_pk_n, g_pk_ret, g_pk_args_match, g_pk_ring_null, g_pk_npub, g_pk_ntags, g_pk_input_index, g_pk_ring, g_pk_keys_obj, g_pk_keys_off, g_pk_key_x0)
+                  g_pk_n, g_pk_ret, g_pk_tags_match, g_pk_ring_null, g_pk_npub, g_pk_ntags, g_pk_input_index, g_pk_ring, g_pk_key_x0, g_pk_out_b, g_pk_used_k)
 __CPROVER_ensures(__CPROVER_return_value == 0 || __CPROVER_return_value == 1)
 __CPROVER_ensures(ring_input_index != NULL ==> (*ring_input_index < n_pubkeys || *ring_input_index == __CPROVER_old(*ring_input_index)))
 __CPROVER_ensures(g_pk_n == __CPROVER_old(g_pk_n) + 1 && g_pk_ret == __CPROVER_return_value && g_pk_npub == n_pubkeys && g_pk_ntags == n_input_tags &&
                   g_pk_input_index == input_index && g_pk_ring_null == (ring_input_index == NULL) &&
-                  g_pk_args_match == (input_tags == g_pk_tags_expect && output_tag == g_pk_out_expect && used_tags == g_pk_used_expect))
+                  g_pk_tags_match == (input_tags == g_pk_tags_expect))
+__CPROVER_ensures(g_el_b < 64 ==> g_pk_out_b == output_tag->data[g_el_b])
+__CPROVER_ensures(g_el_k < (n_input_tags + 7) / 8 ==> g_pk_used_k == used_tags[g_el_k])
 __CPROVER_ensures(ring_input_index != NULL ==> g_pk_ring == *ring_input_index)
 __CPROVER_ensures(g_el_i < n_pubkeys ==> g_pk_key_x0 == pubkeys[g_el_i].x.n[0])
-__CPROVER_ensures(g_pk_keys_obj == __CPROVER_POINTER_OBJECT(pubkeys) && g_pk_keys_off == __CPROVER_POINTER_OFFSET(pubkeys))
 ;
 #endif
 
 /* ---------------------------------------------- secp256k1_surjection_genmessage (PROVED: C11.genmessage) */
 #ifdef EL_SJ_GENMSG
-int g_gm_n, g_gm_args_match; size_t g_gm_ntags; unsigned char g_gm_msg_k;
-const secp256k1_generator *g_gm_tags_expect, *g_gm_out_expect;     /* harness only */
+int g_gm_n, g_gm_tags_match; size_t g_gm_ntags; unsigned char g_gm_msg_k, g_gm_out_b;
+const secp256k1_generator *g_gm_tags_expect;     /* harness only; symbolic-length list identified by address */
 static void secp256k1_surjection_genmessage(const secp256k1_hash_ctx *hash_ctx, unsigned char *msg32, const secp256k1_generator *ephemeral_input_tags, size_t n_input_tags, const secp256k1_generator *ephemeral_output_tag)
 __CPROVER_requires(hash_ctx != NULL && __CPROVER_w_ok(msg32, 32) && __CPROVER_r_ok(ephemeral_input_tags, n_input_tags * sizeof(secp256k1_generator)) && __CPROVER_r_ok(ephemeral_output_tag, sizeof(secp256k1_generator)))
-__CPROVER_assigns(__CPROVER_object_upto(msg32, 32), g_gm_n, g_gm_args_match, g_gm_ntags, g_gm_msg_k)
-__CPROVER_ensures(g_gm_n == __CPROVER_old(g_gm_n) + 1 && g_gm_ntags == n_input_tags && g_gm_args_match == (ephemeral_input_tags == g_gm_tags_expect && ephemeral_output_tag == g_gm_out_expect))
+__CPROVER_assigns(__CPROVER_object_upto(msg32, 32), g_gm_n, g_gm_tags_match, g_gm_ntags, g_gm_msg_k, g_gm_out_b)
+__CPROVER_ensures(g_gm_n == __CPROVER_old(g_gm_n) + 1 && g_gm_ntags == n_input_tags && g_gm_tags_match == (ephemeral_input_tags == g_gm_tags_expect))
+__CPROVER_ensures(g_el_b < 64 ==> g_gm_out_b == ephemeral_output_tag->data[g_el_b])
 __CPROVER_ensures(g_el_k < 32 ==> g_gm_msg_k == msg32[g_el_k])
 ;
 #endif
@@ -219,8 +225,38 @@ int g_hp_n, g_hp_ret; secp256k1_scalar g_hp_out;
 static int secp256k1_whitelist_hash_pubkey(const secp256k1_hash_ctx *hash_ctx, secp256k1_scalar* output, secp256k1_gej* pubkey)
 __CPROVER_requires(hash_ctx != NULL && __CPROVER_w_ok(output, sizeof(*output)) && __CPROVER_rw_ok(pubkey, sizeof(*pubkey)) && gej_ok(pubkey))
 __CPROVER_assigns(*output, *pubkey, g_hp_n, g_hp_ret, g_hp_out)
-__CPROVER_ensures((__CPROVER_return_value == 0 || __CPROVER_return_value == 1) && scalar_ok(output) && gej_ok(pubkey))
+__CPROVER_ensures((__CPROVER_return_value == 0 || __CPROVER_return_value == 1) && (__CPROVER_return_value == 1 ==> scalar_ok(output)) && gej_ok(pubkey))
 __CPROVER_ensures(g_hp_n == __CPROVER_old(g_hp_n) + 1 && g_hp_ret == __CPROVER_return_value && SC_EQ(g_hp_out, *output))
+;
+#endif
+
+/* group addition (mixed, variable time): ORACLE, frame + representation range only.
+ * EL_GEJ_ADD_GE_VAR_LOG: call counter, and for call number g_el_i (a ghost fixed by the harness) its
+ * operands and the byte offset of its destination inside the destination's object. */
+#ifdef EL_GEJ_ADD_GE_VAR
+#ifdef EL_GEJ_ADD_GE_VAR_LOG
+size_t g_aj_n, g_aj_roff; secp256k1_gej g_aj_a; secp256k1_ge g_aj_b; int g_aj_seen;
+#endif
+static void secp256k1_gej_add_ge_var(secp256k1_gej *r, const secp256k1_gej *a, const secp256k1_ge *b, secp256k1_fe *rzr)
+__CPROVER_requires(__CPROVER_w_ok(r, sizeof(*r)) && __CPROVER_r_ok(a, sizeof(*a)) && __CPROVER_r_ok(b, sizeof(*b)) && rzr == NULL && gej_ok(a) && ge_ok(b))
+#ifdef EL_GEJ_ADD_GE_VAR_LOG
+__CPROVER_assigns(*r, g_aj_n, g_aj_roff, g_aj_a, g_aj_b, g_aj_seen)
+__CPROVER_ensures(g_aj_n == __CPROVER_old(g_aj_n) + 1)
+__CPROVER_ensures(__CPROVER_old(g_aj_n) == g_el_i
+    ? (g_aj_seen == 1 && g_aj_roff == __CPROVER_POINTER_OFFSET(r) && GEJ_EQ_OLD(g_aj_a, *a) && GE_EQ_OLD(g_aj_b, *b))
+    : (g_aj_seen == __CPROVER_old(g_aj_seen) && g_aj_roff == __CPROVER_old(g_aj_roff) && GEJ_KEEP(g_aj_a) && GE_KEEP(g_aj_b)))
+#else
+__CPROVER_assigns(*r)
+#endif
+__CPROVER_ensures(gej_ok(r))
+;
+#endif
+/* P -> H(P) * P: ORACLE (hash to scalar, ecmult); leaves the point alone or replaces it, in representation range */
+#ifdef EL_WL_TWEAK_PUBKEY
+static int secp256k1_whitelist_tweak_pubkey(const secp256k1_hash_ctx *hash_ctx, secp256k1_gej* pub_tweaked)
+__CPROVER_requires(hash_ctx != NULL && __CPROVER_rw_ok(pub_tweaked, sizeof(*pub_tweaked)) && gej_ok(pub_tweaked))
+__CPROVER_assigns(*pub_tweaked)
+__CPROVER_ensures((__CPROVER_return_value == 0 || __CPROVER_return_value == 1) && gej_ok(pub_tweaked))
 ;
 #endif
 
